@@ -7,7 +7,7 @@ LEVEL = "exploration"
 RULE = ("seeded random programs (frame forests; transitions to self / ancestor / descendant / sibling subtree / other tree; plain "
         "and conditional auxiliaries; stop/abort/start bids; slaves stepped by fiats) with a recorder in the enter, exit, "
         "renter, rexit contexts of every frame; plus Framer.ExEn called directly on all (current outline, target) pairs of every "
-        "generated forest; distinct = distinct program text; non-trivial = at least 3 transitions / starts / stops observed")
+        "generated forest; every program with a singly used auxiliary framer is also run with that framer turned into a clone of a moot framer (gen.cloneify); distinct = distinct program text; non-trivial = at least 3 transitions / starts / stops observed")
 META = {"engine": "A floscript", "technique": "trace automaton (bracketing) + per-run expected action list from the AST outline difference",
         "level_text": "Per frame a two-state enter/exit automaton over the whole run; at every tick boundary the entered set is compared with "
                       "the full outlines of running framers and active auxiliaries; for every run of a scheduled/slave framer the exact list "
